@@ -597,6 +597,42 @@ def cases(tier, rng):
         yield dict(_config(rng), cap=cap, ops=ops)
     # zero-length chunks (drawn last: the cases above are the same as before)
     yield from _empty_append_cases(48 if quick else 600, rng)
+    yield from _reacquire_cases(40 if quick else 600, rng)
+
+
+def _reacquire_cases(n_cases, rng):
+    """ONE read, an invalidation inside the window, appends that bring the stream back to exactly the same length (the same
+    bounds, other samples: a block dropped and acquired again), then THE SAME read and nothing else in between: what a read
+    returns is a function of the stream, not of the bounds it was made at"""
+    for j in range(n_cases):
+        cap = rng.randint(2, 8)
+        sp = _Spec(cap)
+        ops = []
+        for _ in range(rng.randint(1, 4)):
+            o = ['A', rng.choice([1, 2, 3, cap])]
+            ops.append(o)
+            sp.apply(o)
+        lo, n = sp.lo, sp.n
+        a = rng.randint(lo - 2, n)
+        rd = rng.choice([['F', a, rng.randint(max(a, lo + 1), n + 2), rng.choice([7, 0])], ['L', -(n - lo) - rng.randint(0, 2), 0, 7],
+                         ['S', lo, n], ['T', lo, n], ['L', -(n - lo), 0, None]])
+        i = rng.randint(max(lo, 0), max(n - 1, 0))
+        ops.append(list(rd))
+        o = ['I', i, rng.choice('st')]
+        ops.append(o)
+        sp.apply(o)
+        left = n - sp.n
+        while left > 0:
+            k = rng.randint(1, left)
+            o = ['A', k]
+            ops.append(o)
+            sp.apply(o)
+            left -= k
+        ops.append(list(rd))
+        if j % 2:
+            ops += [['R', cap + rng.randint(0, 2)], list(rd)]
+        ops += _read_sweep(sp, rng, full=False, final=True)
+        yield dict(_config(rng, fs=rng.choice([1.0, 1000.0])), cap=cap, ops=ops)
 
 
 EMPTY_KINDS = [None, None, 'int64', 'float32', 'ro', 'view', 'fortran']
